@@ -49,7 +49,7 @@ def _stack_call(ctx, make, evaluate, lead):
 
 # ---------------------------------------------------------------- Gaussian
 
-@subcheck(SUBCHECKS, 'gaussian_full', quick=500, thorough=9000)
+@subcheck(SUBCHECKS, 'gaussian_full', quick=1000, thorough=9000)
 def gaussian_full(d, ctx):
     from pb_bss.distribution import Gaussian
     D = d.int(1, 8)
@@ -83,7 +83,7 @@ def gaussian_full(d, ctx):
               'cond>=1e4' if cond >= 1e4 else 'cond<1e4')
 
 
-@subcheck(SUBCHECKS, 'gaussian_diag_spherical', quick=400, thorough=7000)
+@subcheck(SUBCHECKS, 'gaussian_diag_spherical', quick=800, thorough=7000)
 def gaussian_diag_spherical(d, ctx):
     from pb_bss.distribution import DiagonalGaussian, SphericalGaussian
     kind = d.choice(['diagonal', 'spherical'])
@@ -124,7 +124,7 @@ def gaussian_diag_spherical(d, ctx):
     ctx.label(kind, f'D={D}', f'lead={len(lead)}')
 
 
-@subcheck(SUBCHECKS, 'complex_gaussian', quick=400, thorough=7000)
+@subcheck(SUBCHECKS, 'complex_gaussian', quick=800, thorough=7000)
 def complex_gaussian(d, ctx):
     from pb_bss.distribution import ComplexCircularSymmetricGaussian
     D = d.int(1, 8)
@@ -158,7 +158,7 @@ def complex_gaussian(d, ctx):
 
 # ---------------------------------------------------------------- spherical
 
-@subcheck(SUBCHECKS, 'vmf', quick=400, thorough=7000)
+@subcheck(SUBCHECKS, 'vmf', quick=800, thorough=7000)
 def vmf(d, ctx):
     from pb_bss.distribution import VonMisesFisher
     D = d.int(2, 8)
@@ -194,7 +194,7 @@ def vmf(d, ctx):
     ctx.label(f'D={D}', f'lead={len(lead)}')
 
 
-@subcheck(SUBCHECKS, 'watson', quick=400, thorough=7000)
+@subcheck(SUBCHECKS, 'watson', quick=800, thorough=7000)
 def watson(d, ctx):
     from pb_bss.distribution import ComplexWatson
     D = d.int(2, 6)
@@ -274,7 +274,7 @@ def _bingham_cancellation(lam):
     return float(a / abs(s))
 
 
-@subcheck(SUBCHECKS, 'bingham', quick=500, thorough=8000)
+@subcheck(SUBCHECKS, 'bingham', quick=1000, thorough=8000)
 def bingham(d, ctx):
     from pb_bss.distribution.complex_bingham import ComplexBingham
     D = d.int(2, 6)
@@ -348,7 +348,7 @@ def bingham_norm_quadrature(d, ctx):
     ctx.label(f'D={D}', fam)
 
 
-@subcheck(SUBCHECKS, 'cacg', quick=500, thorough=8000)
+@subcheck(SUBCHECKS, 'cacg', quick=1000, thorough=8000)
 def cacg(d, ctx):
     from pb_bss.distribution import ComplexAngularCentralGaussian
     D = d.int(2, 8)
@@ -405,7 +405,7 @@ def cacg(d, ctx):
 
 # --------------------------------------- integrates to one (library pdf, D=2)
 
-@subcheck(SUBCHECKS, 'stored_parameters', quick=500, thorough=8000)
+@subcheck(SUBCHECKS, 'stored_parameters', quick=1000, thorough=8000)
 def stored_parameters(d, ctx):
     """"at the stored parameters": a distribution object that has been
     evaluated and whose parameter fields are then reassigned (or overwritten in
@@ -505,7 +505,7 @@ def _sphere_grid(ns=48, nphi=48):
     return z.reshape(-1, 2), w.reshape(-1)
 
 
-@subcheck(SUBCHECKS, 'integrates_to_one_D2', quick=150, thorough=3000)
+@subcheck(SUBCHECKS, 'integrates_to_one_D2', quick=300, thorough=3000)
 def integrates_to_one(d, ctx):
     """E_uniform[exp(log_pdf)] * area == 1 (== area for cACG), with the
     library's own log_pdf on a Gauss-Legendre x trapezoid grid of the complex
